@@ -38,11 +38,13 @@ var bepKeys = map[string][]string{
 }
 
 type wireEntry struct {
-	ID     int64
-	Sub    int64 // extended sub-id, -1 if none / variable
-	Length int64 // fixed frame length, -1 if variable
-	Fields []string
-	Pos    token.Pos
+	SubField string // the struct field that supplies the extended sub-id, when the writer takes it from the message
+	subKnown bool   // the writer's sub-id byte was resolved by the layout evaluation
+	ID       int64
+	Sub      int64 // extended sub-id, -1 if none / variable
+	Length   int64 // fixed frame length, -1 if variable
+	Fields   []string
+	Pos      token.Pos
 }
 
 func runC06(r *Report) {
@@ -99,6 +101,30 @@ func runC06(r *Report) {
 		}
 	}
 	r.Sentinel("R1", len(names), 18)
+	// negotiated extended messages carry the id the peer assigned (the message's Subtype field), not a constant:
+	// storrent's own reception ids differ from what another client maps the extension to
+	for _, n := range names {
+		w := wt[n]
+		nt := p.Named("protocol", n)
+		if nt == nil || !w.subKnown {
+			continue
+		}
+		st, ok := nt.Underlying().(*types.Struct)
+		if !ok {
+			continue
+		}
+		hasSub := false
+		for i := 0; i < st.NumFields(); i++ {
+			if st.Field(i).Name() == "Subtype" {
+				hasSub = true
+			}
+		}
+		if !hasSub {
+			continue
+		}
+		r.Check(w.SubField == "Subtype", "R2", "sub-id-from-message/"+n, w.Pos, "the extended sub-id written is the message's Subtype (the id the peer negotiated)",
+			fmt.Sprintf("%s is written with a fixed extended sub-id (%d) instead of the message's Subtype: a peer that maps the extension to another id does not recognise the message", n, w.Sub))
+	}
 	// extended handshake is sub-id 0
 	if e0, ok := wt["Extended0"]; ok {
 		r.Check(e0.Sub == 0, "R2", "bep-subid/Extended0", e0.Pos, "the extended handshake uses sub-id 0", fmt.Sprintf("the extended handshake is written with sub-id %d", e0.Sub))
@@ -209,7 +235,10 @@ func writerTable(r *Report, write *ssa.Function) map[string]wireEntry {
 				if len(rest) > 0 && rest[0].Bits == 8 {
 					if k, ok := constInt(rest[0].Val); ok {
 						e.Sub = k
+					} else if f, _ := loadedFieldAny(stripIntConv(rest[0].Val)); f != nil {
+						e.SubField = f.Name()
 					}
+					e.subKnown = true
 				}
 				rest = nil // the payload of extended messages is a dictionary: compared by its keys (R2)
 			}
